@@ -200,7 +200,78 @@ func ruleMergerGuards(r *Run) {
 		if kindG == nil && !selfKind {
 			r.Bad(rule, name, "kind collision check", r.P.pos(mt.Pos()), "mergeTypes no longer compares the kinds of two same-named definitions")
 		}
-		if nodeG == nil {
+		// the pair handed to a function of the module (`merged, err := mergeDefinition(…, va, &nvb)`
+		// where the name was found): what mergeTypes owes for its own merge calls and member
+		// comparisons is owed there for those the helper makes — the Node-interface comparison
+		// before its merge calls, both halves of each lo.Difference
+		type pairHelper struct {
+			fn           *ssa.Function
+			kindG, nodeG *agreeGuard
+		}
+		var helpers []*pairHelper
+		if foundSide != nil {
+			seenHelper := map[*ssa.Function]bool{}
+			for _, ins := range allInstrs(mt) {
+				c, ok := ins.(*ssa.Call)
+				if !ok || !foundSide[c.Block()] {
+					continue
+				}
+				sc := c.Call.StaticCallee()
+				if sc == nil || !inModule(sc) || sc.Blocks == nil || seenHelper[sc] {
+					continue
+				}
+				cn := calleeName(&c.Call)
+				if strings.HasSuffix(cn, "merger.mergeRootObjects") || strings.HasSuffix(cn, "merger.mergeCustomObjects") {
+					continue
+				}
+				defs := 0
+				for _, p := range sc.Params {
+					if strings.HasSuffix(namedOf(p.Type()), "ast.Definition") {
+						defs++
+					}
+				}
+				merges := false
+				for _, i2 := range allInstrs(sc) {
+					if c2, ok := i2.(*ssa.Call); ok {
+						cn2 := calleeName(&c2.Call)
+						if strings.HasSuffix(cn2, "merger.mergeRootObjects") || strings.HasSuffix(cn2, "merger.mergeCustomObjects") || strings.HasPrefix(cn2, "github.com/samber/lo.Difference") {
+							merges = true
+						}
+					}
+				}
+				if defs < 2 || !merges {
+					continue
+				}
+				seenHelper[sc] = true
+				h := &pairHelper{fn: sc}
+				for _, i2 := range allInstrs(sc) {
+					iff, ok := i2.(*ssa.If)
+					if !ok {
+						continue
+					}
+					if g := resolveGuard(iff, kindAtom); g != nil && copyOrigin(g.x) != copyOrigin(g.y) {
+						h.kindG = g
+					}
+					if g := resolveGuard(iff, nodeAtom); g != nil {
+						if copyOrigin(g.x) == copyOrigin(g.y) {
+							r.Bad(rule, name, "Node-interface agreement check", r.P.pos(iff.Cond.Pos()), "Node-interface membership of a definition is compared with itself")
+						} else {
+							h.nodeG = g
+							r.Check(returnsErrorOnAllPaths(sc, g.diff), rule, name, "Node-interface disagreement is an error", r.P.pos(iff.Cond.Pos()),
+								"a type that implements Node in one service but not in the other returns an error on every path", "Node-interface disagreement does not always end in an error")
+						}
+					}
+				}
+				helpers = append(helpers, h)
+			}
+		}
+		helperNode := false
+		for _, h := range helpers {
+			if h.nodeG != nil {
+				helperNode = true
+			}
+		}
+		if nodeG == nil && !helperNode {
 			r.Bad(rule, name, "Node-interface agreement check", r.P.pos(mt.Pos()), "mergeTypes no longer compares Node-interface membership of two same-named definitions")
 		}
 		if foundSide == nil {
@@ -237,6 +308,32 @@ func ruleMergerGuards(r *Run) {
 					"a same-named definition is accepted (overridden or merged) on a path that has not passed the kind-collision check: e.g. `scalar X` silently replaces an object or enum X, depending on service order")
 				if strings.HasPrefix(what, "call") && nodeG != nil {
 					r.Check(nodeEq[ins.Block()], rule, name, what+" after Node check", r.P.pos(ins.Pos()),
+						"merged only after Node-interface membership was compared", "objects are merged on a path that skipped the Node-interface agreement check")
+				}
+			}
+			for _, h := range helpers {
+				var hKind, hNode map[*ssa.BasicBlock]bool
+				if h.kindG != nil {
+					hKind = dominatedBy(h.kindG.same)
+				}
+				if h.nodeG != nil {
+					hNode = dominatedBy(h.nodeG.same)
+				}
+				for _, ins := range allInstrs(h.fn) {
+					x, ok := ins.(*ssa.Call)
+					if !ok {
+						continue
+					}
+					cn := calleeName(&x.Call)
+					if !strings.HasSuffix(cn, "merger.mergeRootObjects") && !strings.HasSuffix(cn, "merger.mergeCustomObjects") {
+						continue
+					}
+					what := "call " + cn[strings.LastIndex(cn, ".")+1:]
+					n++
+					r.Check(hKind[ins.Block()], rule, name, what+" after kind check", r.P.pos(ins.Pos()),
+						"a definition whose name already exists is merged/overridden only after its kind was compared",
+						"a same-named definition is accepted (overridden or merged) on a path that has not passed the kind-collision check: e.g. `scalar X` silently replaces an object or enum X, depending on service order")
+					r.Check(hNode[ins.Block()], rule, name, what+" after Node check", r.P.pos(ins.Pos()),
 						"merged only after Node-interface membership was compared", "objects are merged on a path that skipped the Node-interface agreement check")
 				}
 			}
@@ -291,7 +388,11 @@ func ruleMergerGuards(r *Run) {
 		// union / interface members: each lo.Difference compares the member lists of the two
 		// definitions, and a non-empty difference on either side is an error
 		nDiff := 0
-		for _, ins := range allInstrs(mt) {
+		diffInstrs := allInstrs(mt)
+		for _, h := range helpers {
+			diffInstrs = append(diffInstrs, allInstrs(h.fn)...)
+		}
+		for _, ins := range diffInstrs {
 			c, ok := ins.(*ssa.Call)
 			if !ok || !strings.HasPrefix(calleeName(&c.Call), "github.com/samber/lo.Difference") || len(c.Call.Args) != 2 {
 				continue
